@@ -2,7 +2,6 @@ package main
 
 import (
 	"fmt"
-	"reflect"
 	"strings"
 
 	mxj "github.com/clbanning/mxj/v2"
@@ -542,19 +541,17 @@ func realize(m *optModel) {
 	}
 }
 
-func snapshotGlobals() []reflect.Value {
-	out := make([]reflect.Value, len(pristine))
+func snapshotGlobals() []savedVar {
+	out := make([]savedVar, len(pristine))
 	for i, s := range pristine {
-		cp := reflect.New(s.ptr.Elem().Type()).Elem()
-		cp.Set(deepCopyValue(s.ptr.Elem()))
-		out[i] = cp
+		out[i] = snapVar(s.name, s.ptr)
 	}
 	return out
 }
 
-func restoreGlobals(snap []reflect.Value) {
-	for i, s := range pristine {
-		s.ptr.Elem().Set(snap[i])
+func restoreGlobals(snap []savedVar) {
+	for _, s := range snap {
+		restoreVar(s)
 	}
 }
 
